@@ -330,6 +330,28 @@ def validated_quantities(prog, res):
     res.need(R, 7)
 
 
+def merge_conserves_literals(prog, res):
+    """T8: ZSTD_mergeBlockDelimiters drops the delimiters of an extracted parse; the literals a delimiter carries belong to
+    the next real sequence.  Several delimiters can follow each other (a block without any sequence), so a delimiter's
+    literals must be ACCUMULATED: every statement that moves a litLength out of a dropped entry is a `+=` (or an `a + b`),
+    never a plain overwrite; kept entries are whole-struct copies."""
+    R = "T8.merge-conserves-literals"
+    f = prog.fn("ZSTD_mergeBlockDelimiters")
+    n = 0
+    for b, i, x in f.events(lambda y: y.get("k") == "asg"):
+        reads = [y for y in f.walk_resolved(x["rhs"]) if y.get("k") == "mem" and y.get("f") == "litLength"]
+        if not reads:
+            continue
+        n += 1
+        adds = x.get("op") == "+=" or any(y.get("k") == "bin" and y.get("op") == "+" for y in f.walk_resolved(x["rhs"]))
+        res.check(adds, R, "moves-litLength@%s" % x.get("l"), "%s:%s" % (f.file, x.get("l")), "literals of a dropped delimiter are added to what is already owed",
+                  "ZSTD_mergeBlockDelimiters overwrites a literal count with a delimiter's litLength instead of adding it: with two delimiters in a row "
+                  "(a block without sequences) the first one's literals vanish, every following match sits too early and the merged list is no longer a "
+                  "parse of the source")
+    res.check(n >= 1, R, "site", f.loc, "%d statement(s) move a delimiter's literals" % n, "ZSTD_mergeBlockDelimiters no longer moves the delimiters' literals")
+    res.need(R, 2)
+
+
 def run(tier):
     res = Result("C17", tier)
     tus, info = extract(["compress", "common"])
@@ -341,6 +363,7 @@ def run(tier):
     producer_rules(prog, res)
     wide_length_arithmetic(prog, res)
     validated_quantities(prog, res)
+    merge_conserves_literals(prog, res)
     # frozen guards of lib/compress for the error codes this property owns (shared inventory, split by code)
     import json as _json, os as _os
     from ..rules import guards as _guards
